@@ -190,10 +190,93 @@ def r193(ctx, fx):
         ctx.finding(rid, k3, "hitting a breakpoint must store Stopped(pc) and notify the session", f.where)
 
 
+def r194(ctx, fx):
+    rid = ctx.rule("R19.4", "the breakpoint test of the machine thread reads the shared breakpoint list under its lock at the moment of the test — the sequence it "
+                   "searches is a MutexGuard of that list acquired in the same iteration, not a private copy refreshed on some signal (publishing the signal "
+                   "before the data loses a breakpoint for good); the exemption that lets `continue` leave a breakpoint ends after one executed instruction")
+    ths = machine_thread(fx)
+    if len(ths) != 1:
+        ctx.fail_closed(rid, "machine thread closure not found uniquely (%d candidates)" % len(ths))
+        return
+    f = ths[0]
+    owner = fx.fns.get(f.d.get("parent"))
+    hir = None
+    if owner is not None and owner.d.get("hir"):
+        for n in lib.hwalk(owner.hir["body"]):
+            if n.get("k") == "closure" and n.get("id") == f.id:
+                hir = n
+    if hir is None:
+        ctx.fail_closed(rid, "HIR of the machine thread closure not found")
+        return
+    key = "%s|breakpoint-test" % f.path
+    lets = {n["pat"]["name"]: n["init"] for n in lib.hwalk(hir) if n.get("k") == "let" and n["pat"].get("k") == "bind" and "init" in n}
+    # the test: `.any(|bp| … <= pc && … > pc)` — a search whose predicate compares with the local `pc`
+    tests = [x for x in lib.hwalk(hir) if x.get("k") == "mcall" and x.get("name") in ("any", "find", "position", "all") and x.get("args") and
+             any(y.get("k") == "binary" and y.get("op") in ("Le", "Lt", "Ge", "Gt") and any(z.get("k") == "path" and lib.hpath(z) == "pc" for z in lib.hwalk(y))
+                 for y in lib.hwalk(x["args"][0]))]
+    ctx.inst(rid, key, sample={"tests": len(tests)})
+    if len(tests) != 1:
+        ctx.fail_closed(rid, "expected one breakpoint range test (`.any(|bp| bp.range …)`) in the machine thread, found %d" % len(tests))
+        return
+    recv = tests[0]["recv"]
+    roots = {lib.hpath(y) for y in lib.hwalk(recv) if y.get("k") == "path" and (y.get("res") or {}).get("dk") == "Local"}
+    locked = any(nm in lets and any(True for x, p in lib.hir_calls(lets[nm]) if p and lib.pm(p, "Mutex::lock")) and
+                 "MachineBreakpoint" in (lib.strip(lets[nm]).get("ty") or "") for nm in roots) or any(True for x, p in lib.hir_calls(recv) if p and lib.pm(p, "Mutex::lock"))
+    if not locked:
+        ctx.finding(rid, key, "the breakpoint test searches `%s`, which is not the locked shared breakpoint list: a setBreakpoints that races with the refresh of that "
+                    "copy is lost until the next one, and the machine runs over a verified breakpoint" % "/".join(sorted(r for r in roots if r)), f.where)
+    # the exemption variable: assigned None (reset) after the step
+    key2 = "%s|exemption-ends" % f.path
+    ctx.inst(rid, key2)
+    ex_line = min([x.get("ln") or 0 for x, p in lib.hir_calls(hir, "TestRunner::execute_instruction")] or [0])
+    resets = [x for x in lib.hwalk(hir) if x.get("k") == "assign" and lib.hpath(x["l"]) == "last_checked_pc" and lib.hpath(lib.strip(x["r"])) and
+              str(lib.hpath(lib.strip(x["r"]))).endswith("None") and (x.get("ln") or 0) > ex_line]
+    uses_exemption = any(lib.hpath(y) == "last_checked_pc" for y in lib.hwalk(hir) if y.get("k") == "path")
+    if uses_exemption and not resets:
+        ctx.finding(rid, key2, "the breakpoint check is skipped while the pc equals the last checked one, and that memory is never cleared after an instruction was "
+                    "executed: a breakpoint on an instruction that jumps to itself is hit once and then executed for ever", f.where)
+
+
+def r195(ctx, fx):
+    rid = ctx.rule("R19.5", "stepping follows the call depth (regression guards): step_over ends when the pc *and* the stack pointer are back; step_out does not take "
+                   "the return address from the stack (data may lie on top of it) but counts jsr/rts; the adapter replaces only the breakpoints of the source "
+                   "file a setBreakpoints request is about, as its VICE sibling does")
+    so = fx.fn("mos::test_runner::TestRunner::step_over")
+    sout = fx.fn("mos::test_runner::TestRunner::step_out")
+    if so is None or sout is None:
+        ctx.fail_closed(rid, "TestRunner::step_over / step_out not found")
+        return
+    key = "step_over|stack"
+    ctx.inst(rid, key)
+    conds = [repr(lib.hdesc(n["cond"])) for n in lib.hwalk(so.hir["body"]) if n.get("k") == "if"]
+    if not any("get_program_counter" in c and "get_stack_pointer" in c for c in conds):
+        ctx.finding(rid, key, "`next` over a jsr ends as soon as the pc equals the address after the jsr: with recursion a nested invocation gets there first and the "
+                    "step ends inside the subroutine", so.where)
+    key = "step_out|return-address"
+    ctx.inst(rid, key)
+    reads_stack = any(n.get("k") == "index" and "get_stack_pointer" in repr(lib.hdesc(n)) for n in lib.hwalk(sout.hir["body"]))
+    if reads_stack:
+        ctx.finding(rid, key, "stepOut reads its target from the top of the stack: after a `pha` in the subroutine that is not the return address and the machine "
+                    "runs to the end of the test", sout.where)
+    sb = [f for f in fx.all_fns("mos") if f.path.endswith("::set_breakpoints") and "test_runner" in f.path and f.d.get("hir")]
+    key = "TestRunnerAdapter::set_breakpoints|per-source"
+    ctx.inst(rid, key)
+    if len(sb) != 1:
+        ctx.fail_closed(rid, "TestRunnerAdapter::set_breakpoints not found")
+    else:
+        uses_path = any(True for x in lib.hwalk(sb[0].hir["body"]) if x.get("k") == "mcall" and x.get("name") in ("retain", "filter", "drain_filter", "partition") and
+                        any(y.get("k") == "path" and lib.hpath(y) == "source_path" for y in lib.hwalk(x)))
+        if not uses_path:
+            ctx.finding(rid, key, "the test runner adapter replaces all breakpoints on every setBreakpoints request: the client sends one request per source file, so only "
+                        "the breakpoints of the file sent last exist and those of the other files are run over", sb[0].where)
+
+
 def run(ctx):
     fx = ctx.facts
+    r194(ctx, fx)
+    r195(ctx, fx)
     r191(ctx, fx)
     r192(ctx, fx)
     r193(ctx, fx)
-    ctx.not_decided("stepping sequences (next/stepOut semantics on subroutines), breakpoint line → address mapping, all other interleavings of the session, machine "
+    ctx.not_decided("stepping sequences on concrete programs, breakpoint line → address mapping, all other interleavings of the session, machine "
                     "and poller threads; the VICE back-end")
